@@ -179,12 +179,12 @@ func getMinIntType(
 	)
 
 	if nExclusiveMin && nMin != nil {
-		adjusted := *nMin + 1.0
+		adjusted := math.Floor(*nMin) + 1.0
 		nMin = &adjusted
 	}
 
 	if nExclusiveMax && nMax != nil {
-		adjusted := *nMax - 1.0
+		adjusted := math.Ceil(*nMax) - 1.0
 		nMax = &adjusted
 	}
 
@@ -201,11 +201,11 @@ func adjustForSignedBounds(nMin, nMax *float64) (string, bool, bool) {
 	var minRounded, maxRounded float64
 
 	if nMin != nil {
-		minRounded = math.Round(*nMin)
+		minRounded = math.Ceil(*nMin)
 	}
 
 	if nMax != nil {
-		maxRounded = math.Round(*nMax)
+		maxRounded = math.Floor(*nMax)
 	}
 
 	switch {
@@ -238,7 +238,7 @@ func adjustForUnsignedBounds(nMin, nMax *float64) (string, bool, bool) {
 	var maxRounded float64
 
 	if nMax != nil {
-		maxRounded = math.Round(*nMax)
+		maxRounded = math.Floor(*nMax)
 	}
 
 	switch {
